@@ -13,6 +13,8 @@
 //                          operation i of kind k with size n returned cnt bytes that are pattern run [f,t) (nr = number
 //                          of maximal runs, 1 on a faithful stream, 0 if cnt=0), error class cls, Len() after the
 //                          op, and pk = what every still outstanding peeked slice shows NOW (re-read after the op)
+//                          m = reader behaviour of ReadFrom; big = 1 if ReadFrom started on an output tail node
+//                          with cap > 8 KiB (signature of known finding C13-readfrom-noprogress)
 //                          ab = number of bytes of the caller's own backing array (arena of the WriteBinary/Write
 //                          arguments incl. its spare capacity) that no longer hold what the caller put there
 //   Geo{in,out}            (optional, -geo) link-buffer node geometry after the op (stage 2)
@@ -182,6 +184,9 @@ func classify(err error) string {
 	if errors.Is(err, io.EOF) {
 		return "eof"
 	}
+	if errors.Is(err, io.ErrNoProgress) {
+		return "noprogress"
+	}
 	var ne net.Error
 	if errors.As(err, &ne) && ne.Timeout() {
 		return "timeout"
@@ -281,6 +286,7 @@ type Op struct {
 type patReader struct {
 	off, left, mode int
 	calls, empties  int
+	deliv           int
 }
 
 func (r *patReader) Read(p []byte) (int, error) {
@@ -288,18 +294,18 @@ func (r *patReader) Read(p []byte) (int, error) {
 	if r.calls > 10000000 {
 		panic("verif: ReadFrom keeps calling Read (no progress)")
 	}
+	if r.left == 0 { // like bytes.Reader: EOF even for an empty p
+		return 0, io.EOF
+	}
 	if len(p) == 0 {
 		return 0, nil
 	}
-	if r.left == 0 {
-		return 0, io.EOF
-	}
-	if r.mode == 4 && r.calls%3 == 1 && r.empties < 3 {
+	if r.mode == 4 && r.deliv%3 == 0 && r.empties < 3 {
 		r.empties++
-		r.calls--
 		return 0, nil
 	}
 	r.empties = 0
+	r.deliv++
 	n := len(p)
 	switch r.mode {
 	case 1, 4:
@@ -541,6 +547,7 @@ func runCase(tr *vtrace.Writer, c *Case, geo bool) {
 	for i, op := range c.Ops {
 		s.rn, s.rcalls, s.rcls, s.sink = 0, 0, "none", s.sink[:0]
 		cnt, cls := 0, "ok"
+		big := 0
 		var r run
 		nr := 0
 		switch op.K {
@@ -625,6 +632,11 @@ func runCase(tr *vtrace.Writer, c *Case, geo bool) {
 			// 3 whatever fits and io.EOF together with the last bytes, 4 like 1 with three (0, nil) reads before
 			// every third delivery.
 			rd := &patReader{off: wr, left: op.N, mode: op.M}
+			if sc != nil { // observation only: is the current output tail node one that Flush never resets (cap > 8 KiB)?
+				if on := sc.VerifOutputNodes(); len(on) > 0 && on[len(on)-1].Cap > 8192 && !on[len(on)-1].ReadOnly {
+					big = 1
+				}
+			}
 			n, err := conn.(io.ReaderFrom).ReadFrom(rd)
 			cnt, cls = int(n), classify(err)
 			wr += op.N
@@ -654,7 +666,7 @@ func runCase(tr *vtrace.Writer, c *Case, geo bool) {
 			pks = append(pks, pkOf(o.b, o.from))
 		}
 		tr.Emit("Op", vtrace.Rec{"i": i + 1, "k": op.K, "n": op.N, "cnt": cnt, "f": r.F, "t": r.T, "nr": nr,
-			"cls": cls, "len": ln, "pk": pks, "ab": ab, "m": op.M})
+			"cls": cls, "len": ln, "pk": pks, "ab": ab, "m": op.M, "big": big})
 		if geo && sc != nil {
 			tr.Emit("Geo", vtrace.Rec{"in": geoOf(sc.VerifInputNodes()), "out": geoOf(sc.VerifOutputNodes())})
 		}
